@@ -11,10 +11,18 @@ import Driver.Common
   `grant port` / `grant <key>`          → `calls=<key:msg,…|-> done=<bool>` (+ v1 counts)
   `seq <key>`                           → `<o,o,…|->`   (oracle `C16.okV1/okV2` on the impl's sequence)
   `dispatch <ad> <dead> <subs> <batch>` → `<key:msg:ok,…|-> | <keys|->`
+  `drop`                                → `ok`   (the port handle is dropped; afterwards `pub`/`sub` → `closed`,
+                                          grants print no v1 counts and must end with `done=true`)
+
+Converter `echo` = identity that, called with an original message `m` (`m < echoBase`, `m % 4 == 0`),
+publishes `m + echoBase * (key + 1)` on the same port from inside the converter call: a publication
+landing in the middle of the port task's / forwarding task's poll.
 -/
 
 namespace Driver.C16
 open OutPort Driver
+
+def echoBase : Nat := 100000
 
 def convOf : String → Option (Nat → Option Nat)
   | "all" => some some
@@ -23,6 +31,10 @@ def convOf : String → Option (Nat → Option Nat)
   | "none" => some fun _ => none
   | "dbl" => some fun m => some (2 * m)
   | "m3" => some fun m => if m % 3 == 0 then some (m + 1000) else none
+  | "echo" => some some
+  | "dropper" => some some
+  | "suicide" => some some
+  | "from" => some some     -- `OutputPortSubscriberTrait::subscribe_to_port`: `|m| Some(O::from(m))`
   | _ => none
 
 /-- what the oracle needs to know about one subscription, from the ops alone -/
@@ -39,11 +51,28 @@ structure SubInfo where
   /-- a converter call of this subscription produced `Some` while its actor was stopped:
   the send failed, the subscription must have been dropped -/
   rejected : Bool := false
+  /-- converter calls of this subscription reported by the implementation in grants that began
+  after its subscriber had stopped: the first one is how the port finds out; a second one means
+  the stopped subscriber was not dropped -/
+  callsAfterStop : Nat := 0
+  /-- the converter publishes re-entrantly (kind `echo`) -/
+  echo : Bool := false
+  /-- the converter drops the port from inside a call (kind `dropper`) -/
+  dropper : Bool := false
+  /-- the converter makes its OWN subscriber refuse messages (`drain()`) from inside the call, before
+  returning `Some` (kind `suicide`): the subscriber dies in the middle of a batch -/
+  suicide : Bool := false
+  /-- v1: at some grant the task was more than the ring capacity behind -/
+  lagged : Bool := false
 
 structure St where
   isV2 : Bool := false
-  s2 : V2 Nat Nat := {}
-  s1 : V1 Nat Nat := {}
+  s2 : V2c Nat Nat := {}
+  s1 : V1c Nat Nat := {}
+  /-- the port handle has been dropped -/
+  dropped : Bool := false
+  /-- v1: publishers parked between `receiver_count()` and `tx.send` (E-THR point) -/
+  pend : List Nat := []
   pubs : List Nat := []
   subs : List SubInfo := []
   stopped : List Nat := []
@@ -60,6 +89,52 @@ structure St where
 def St.toModel (st : St) (k : Nat) : Option Nat := (st.keyMap.find? (·.1 == k)).map (·.2)
 /-- op key of a model ordinal -/
 def St.toOp (st : St) (k : Nat) : Nat := ((st.keyMap.find? (·.2 == k)).map (·.1)).getD k
+
+/-- what converter call `(op key, msg)` publishes re-entrantly (if the port is still there) -/
+def St.echoOf (st : St) (opk m : Nat) : Option Nat :=
+  match st.subs.find? (·.key == opk) with
+  | some i => if i.echo && m < echoBase && m % 4 == 0 then some (m + echoBase * (opk + 1)) else none
+  | none => none
+
+/-- converter call `(op key, msg)` drops the port (kind `dropper`) -/
+def St.dropsAt (st : St) (opk m : Nat) : Bool :=
+  match st.subs.find? (·.key == opk) with
+  | some i => i.dropper && m < echoBase && m % 8 == 4
+  | none => false
+
+/-- converter call `(op key, msg)` drains its own subscriber actor before it returns: that actor -/
+def St.suicideAt (st : St) (opk m : Nat) : Option Nat :=
+  match st.subs.find? (·.key == opk) with
+  | some i => if i.suicide && m < echoBase && m % 8 == 6 then some i.actor else none
+  | none => none
+
+def St.pre2 (st : St) (km : Nat × Nat) : List (Op2c Nat Nat) :=
+  ((st.suicideAt (st.toOp km.1) km.2).map fun a => Op2c.op (.exit a)).toList
+def St.pre1 (st : St) (km : Nat × Nat) : List (Op1c Nat Nat) :=
+  ((st.suicideAt (st.toOp km.1) km.2).map fun a => Op1c.op (.exit a)).toList
+
+/-- the subscriber actors that drained themselves during the converter calls of a grant -/
+def St.suicides (st : St) (cs : List (Nat × Nat)) : List Nat :=
+  cs.filterMap fun km => st.suicideAt km.1 km.2
+
+/-- the port operations a model call performs re-entrantly (model ordinal → op key) -/
+def St.re2 (st : St) (c : Call Nat) : List (Op2c Nat Nat) :=
+  ((st.echoOf (st.toOp c.key) c.msg).map fun m => Op2c.op (.publish m)).toList ++
+    (if st.dropsAt (st.toOp c.key) c.msg then [.drop] else [])
+
+def St.re1 (st : St) (c : Call Nat) : List (Op1c Nat Nat) :=
+  ((st.echoOf (st.toOp c.key) c.msg).map fun m => Op1c.op (.publish m)).toList ++
+    (if st.dropsAt (st.toOp c.key) c.msg then [.drop] else [])
+
+/-- Walk through the converter calls of a grant in order: the publications made from inside
+them (none once the port is gone) and whether the port is gone afterwards. -/
+def St.scanCalls (st : St) (cs : List (Nat × Nat)) : List Nat × Bool :=
+  cs.foldl (fun (acc : List Nat × Bool) km =>
+    let (ech, gone) := acc
+    let ech := match st.echoOf km.1 km.2 with
+      | some m => if gone then ech else ech ++ [m]
+      | none => ech
+    (ech, gone || st.dropsAt km.1 km.2)) ([], st.dropped)
 
 def showCalls (st : St) (cs : List (Call Nat)) : String :=
   if cs.isEmpty then "-" else ",".intercalate (cs.map fun c => s!"{st.toOp c.key}:{c.msg}")
@@ -84,11 +159,14 @@ def oracleSeq (st : St) (key : Nat) (impl : String) : List String :=
     if st.isV2 then
       (if v.subseq then [] else ["subsequence"]) ++
       (if v.pre then [] else ["prefix"]) ++
-      (if !(alive && !st.dirty) || v.exact then [] else ["complete"])
+      (if !(alive && !st.dirty) || v.exact then [] else [if st.dropped then "drop-complete" else "complete"])
     else
-      let parked := !i.done && i.grantedAt == st.pubs.length
+      -- caught up: parked with nothing left to read, or returned on `Closed` after the drop
+      let parked := i.grantedAt == st.pubs.length && (!i.done || st.dropped)
       (if v.subseq then [] else ["subsequence"]) ++
-      (if !(alive && parked) || recentOk ringCap i.conv after got then [] else ["recent"])
+      (if !(alive && parked) || recentOk ringCap i.conv after got then [] else ["recent"]) ++
+      -- dropped port, task returned, subscriber alive, never more than the ring behind: everything
+      (if !(alive && parked && st.dropped && i.done && !i.lagged) || v.exact then [] else ["drop-complete"])
   | none, _ => []
   | _, none => ["unparsable"]
 
@@ -117,8 +195,12 @@ def oracleCalls (st : St) (impl : String) : List SubInfo × List String :=
       | none => (subs, bad ++ ["unknown-subscription"])
       | some i =>
         let bad := if i.rejected then bad ++ ["dead-dropped"] else bad
-        let rej := (i.conv km.2).isSome && st.stopped.contains i.actor
-        (subs.map fun j => if j.key == km.1 then { j with rejected := j.rejected || rej } else j, bad))
+        let isStopped := st.stopped.contains i.actor
+        let bad := if isStopped && i.callsAfterStop ≥ 1 then bad ++ ["stopped-not-dropped"] else bad
+        let rej := (i.conv km.2).isSome && isStopped
+        (subs.map fun j => if j.key == km.1 then
+            { j with rejected := j.rejected || rej,
+                     callsAfterStop := j.callsAfterStop + (if isStopped then 1 else 0) } else j, bad))
       (st.subs, [])
 
 /-- `id:key:conv` -/
@@ -151,9 +233,9 @@ def finishBatch : Nat → V2 Nat Nat → List (Call Nat) → V2 Nat Nat × List 
 def step (st : St) (op impl : String) : St × StepOut :=
   match words op with
   | ["case", v, _, _] =>
-    ({ isV2 := v == "v2", s2 := V2.init Nat Nat true, s1 := V1.init Nat Nat ringCap }, { model := "ok" })
+    ({ isV2 := v == "v2", s2 := V2c.init Nat Nat true, s1 := V1c.init Nat Nat ringCap }, { model := "ok" })
   | ["case", v, _, _, k] =>
-    ({ isV2 := v == "v2", s2 := V2.init Nat Nat true, s1 := V1.init Nat Nat ringCap,
+    ({ isV2 := v == "v2", s2 := V2c.init Nat Nat true, s1 := V1c.init Nat Nat ringCap,
        heldActors := List.range (k.toNat?.getD 0) }, { model := "ok", nontrivial := true })
   | ["release", a] =>
     match a.toNat? with
@@ -162,63 +244,124 @@ def step (st : St) (op impl : String) : St × StepOut :=
   | ["pub", m] =>
     match m.toNat? with
     | some m =>
-      ({ st with s2 := st.s2.publish m, s1 := st.s1.publish m, pubs := st.pubs ++ [m], dirty := true },
-       { model := "ok" })
+      if st.dropped then (st, { model := "closed" }) else
+      -- (publishing never blocks / is never delayed by subscribers) the synchronous `send` returned
+      -- while every forwarding task / the port task was gated, without running any converter
+      ({ st with s2 := st.s2.step (.op (.publish m)), s1 := st.s1.step (.op (.publish m)),
+                 pubs := st.pubs ++ [m], dirty := true },
+       { model := "ok", oracle := if impl == "ok" then [] else ["publish-ran-subscriber-code"] })
     | none => (st, { model := "bad-op" })
   | ["sub", key, actor, kind] =>
     match key.toNat?, actor.toNat?, convOf kind with
     | some key, some actor, some c =>
       let info : SubInfo := { key := key, actor := actor, conv := c, pstart := st.pubs.length,
-                              grantedAt := st.pubs.length }
-      let ord := if st.isV2 then st.s2.nsub else st.s1.fwds.length
+                              grantedAt := st.pubs.length, echo := kind == "echo", dropper := kind == "dropper", suicide := kind == "suicide" }
+      let ord := if st.isV2 then st.s2.base.nsub else st.s1.base.fwds.length
       let st' := { st with subs := st.subs ++ [info], dirty := true, keyMap := st.keyMap ++ [(key, ord)] }
-      if (st.toModel key).isSome then (st, { model := "duplicate-key" })
+      if st.dropped then (st, { model := "closed" })
+      else if (st.toModel key).isSome then (st, { model := "duplicate-key" })
       else if st.isV2 then
-        ({ st' with s2 := st.s2.subscribe actor c }, { model := "ok" })
+        ({ st' with s2 := st.s2.step (.op (.subscribe actor c)) }, { model := "ok", nontrivial := kind == "echo" || kind == "dropper" || kind == "suicide" })
       else
-        let s1 := st.s1.subscribe actor c
-        ({ st' with s1 := s1 }, { model := v1Counts s1 })
+        let s1 := st.s1.step (.op (.subscribe actor c))
+        ({ st' with s1 := s1 }, { model := v1Counts s1.base, nontrivial := kind == "echo" || kind == "dropper" || kind == "suicide" })
     | _, _, _ => (st, { model := "bad-op" })
   | ["stop", actor] =>
     match actor.toNat? with
     | some a =>
-      ({ st with s2 := st.s2.step (.exit a), s1 := st.s1.step (.exit a), stopped := a :: st.stopped },
+      ({ st with s2 := st.s2.step (.op (.exit a)), s1 := st.s1.step (.op (.exit a)), stopped := a :: st.stopped },
        { model := "ok" })
     | none => (st, { model := "bad-op" })
+  | ["drain", actor] =>
+    -- `drain()`: the actor refuses messages from now on (like a stopped one); a held actor
+    -- stays `Draining` until it is released, the others are gone after the settle
+    match actor.toNat? with
+    | some a =>
+      ({ st with s2 := st.s2.step (.op (.exit a)), s1 := st.s1.step (.op (.exit a)), stopped := a :: st.stopped },
+       { model := if st.heldActors.contains a then "Draining" else "ok", nontrivial := st.heldActors.contains a })
+    | none => (st, { model := "bad-op" })
+  | ["pubcheck", m] =>
+    -- a publisher THREAD runs the real `send` up to the schedule point after `receiver_count()`
+    match m.toNat? with
+    | some m =>
+      if st.isV2 then (st, { model := "bad-op" }) else
+      let t : V1t Nat Nat := { base := st.s1, pending := st.pend }
+      let t' := t.step (.pubCheck m)
+      if st.dropped then (st, { model := "closed" })
+      else if t'.pending.length > st.pend.length then
+        ({ st with pend := t'.pending }, { model := "parked", nontrivial := true })
+      else
+        -- saw no receiver: the publication is dropped here and now
+        ({ st with s1 := t'.base, pubs := st.pubs ++ [m] }, { model := "skipped", nontrivial := true })
+    | none => (st, { model := "bad-op" })
+  | ["pubstore"] =>
+    match st.pend with
+    | [] => (st, { model := "none" })
+    | m :: _ =>
+      let t : V1t Nat Nat := { base := st.s1, pending := st.pend }
+      let t' := t.step (.pubStore 0)
+      let stored : Bool := decide (t'.base.base.log.length > st.s1.base.log.length)
+      ({ st with s1 := t'.base, pend := t'.pending, pubs := st.pubs ++ [m] },
+       { model := "ok", nontrivial := true,
+         -- the publisher must come back from `send` whatever happened since its check
+         oracle := if impl == "ok" then [] else ["publisher-failed"],
+         key := some s!"pubstore stored={stored} fwds={st.s1.base.fwds.length} pend={st.pend.length}" })
+  | ["drop"] =>
+    if !st.pend.isEmpty then (st, { model := "busy" }) else
+    ({ st with s2 := st.s2.step .drop, s1 := st.s1.step .drop, dropped := true },
+     { model := "ok", nontrivial := !st.dropped && (st.dirty || !st.subs.isEmpty) })
   | ["grant", "port"] =>
-    let (s2, calls) := V2.runTask (fuelOf st) st.s2 []
-    let obs := s!"calls={showCalls st calls} done=false"
+    let (s2, calls) := V2c.runTask st.re2 st.pre2 (fuelOf st) st.s2 []
+    let obs := s!"calls={showCalls st calls} done={s2.finished}"
     let (subs, bad) := oracleCalls st impl
-    ({ st with s2 := s2, dirty := false, subs := subs },
-     { model := obs, key := some s!"v2 {st.subs.length} {obs}", oracle := bad.eraseDups,
-       nontrivial := decide (calls.length > 1) && s2.live.length + s2.gone.length > 1 })
+    -- the publications made from inside converter calls (and a drop from inside one), as the
+    -- implementation reported them
+    let (echoes, gone) := st.scanCalls ((parseCalls? impl).getD (calls.map fun c => (st.toOp c.key, c.msg)))
+    -- after the drop nothing can park the port task: it must run to its end
+    let bad := if gone && !(words impl).contains "done=true" then bad ++ ["not-terminated-after-drop"] else bad
+    let died := st.suicides ((parseCalls? impl).getD (calls.map fun c => (st.toOp c.key, c.msg)))
+    ({ st with s2 := s2, dirty := false, subs := subs, pubs := st.pubs ++ echoes, dropped := gone,
+               stopped := st.stopped ++ died },
+     { model := obs, key := some s!"v2 {st.subs.length} {st.dropped} {gone} {echoes.length} {obs}", oracle := bad.eraseDups,
+       nontrivial := (decide (calls.length > 1) && s2.base.live.length + s2.base.gone.length > 1)
+         || !echoes.isEmpty || (gone && !st.s2.finished) })
   | ["grant", key] =>
     match key.toNat?.bind st.toModel with
     | some k =>
-      let (s1, calls) := V1.runTask (fuelOf st) st.s1 k []
-      match s1.fwds[k]? with
+      let (s1, calls) := V1c.runTask st.re1 st.pre1 (fuelOf st) st.s1 k []
+      match s1.base.fwds[k]? with
       | none => (st, { model := "no-such-task" })
       | some f =>
         let lagged := f.mask.any (·.isSome)
         let (subs, bad) := oracleCalls st impl
         -- a forwarding task may end only because its subscriber has stopped
-        let endedAlive := (words impl).contains "done=true" &&
+        let (echoes, gone) := st.scanCalls ((parseCalls? impl).getD (calls.map fun c => (st.toOp c.key, c.msg)))
+        let pubs := st.pubs ++ echoes
+        let wasDone := st.s1.taskDone k
+        let bad := if gone && !(words impl).contains "done=true" then bad ++ ["not-terminated-after-drop"] else bad
+        let died := st.suicides ((parseCalls? impl).getD (calls.map fun c => (st.toOp c.key, c.msg)))
+        let endedAlive := !gone && (words impl).contains "done=true" &&
           (match st.subs.find? (fun i => st.toModel i.key == some k) with
-           | some i => !st.stopped.contains i.actor
+           | some i => !(st.stopped ++ died).contains i.actor
            | none => false)
         let bad := if endedAlive then bad ++ ["subscription-ended-alive"] else bad
         let subs := subs.map fun i =>
-          if st.toModel i.key == some k then { i with grantedAt := st.pubs.length, done := f.ended } else i
-        let obs := s!"calls={showCalls st calls} done={f.ended} {v1Counts s1}"
-        ({ st with s1 := s1, subs := subs },
-         { model := obs, key := some s!"v1 {k} {obs}", oracle := bad.eraseDups,
-           nontrivial := !calls.isEmpty && (lagged || f.ended || st.s1.fwds.length > 1) })
+          if st.toModel i.key == some k then
+            { i with grantedAt := pubs.length, done := s1.taskDone k,
+                     lagged := i.lagged || (!wasDone && st.pubs.length - i.grantedAt > ringCap) }
+          else i
+        let obs := s!"calls={showCalls st calls} done={s1.taskDone k}" ++
+          (if s1.closed then "" else s!" {v1Counts s1.base}")
+        ({ st with s1 := s1, subs := subs, pubs := pubs, dropped := gone, stopped := st.stopped ++ died },
+         { model := obs, key := some s!"v1 {k} {st.dropped} {gone} {echoes.length} {obs}", oracle := bad.eraseDups,
+           nontrivial := (!calls.isEmpty && (lagged || f.ended || st.s1.base.fwds.length > 1))
+             || !echoes.isEmpty || (gone && !wasDone) })
     | none => (st, { model := "no-such-task" })
   | ["seq", key] =>
     match key.toNat?, key.toNat?.bind st.toModel with
     | some opk, some k =>
-      let got := if st.isV2 then (st.s2.all.find? (·.key == k)).map (·.got)
-                 else (st.s1.fwds[k]?).map (·.got)
+      let got := if st.isV2 then (st.s2.base.all.find? (·.key == k)).map (·.got)
+                 else (st.s1.base.fwds[k]?).map (·.got)
       let heldNow := match st.subs.find? (·.key == opk) with
         | some i => st.heldActors.contains i.actor
         | none => false
@@ -229,7 +372,7 @@ def step (st : St) (op impl : String) : St × StepOut :=
           (st, { model := "-", oracle := if impl == "-" then [] else ["subsequence"] })
         else
         (st, { model := showNats g, oracle := oracleSeq st opk impl, nontrivial := !g.isEmpty,
-               key := some s!"seq {st.isV2} {k} {st.pubs.length} {showNats g}" })
+               key := some s!"seq {st.isV2} {k} {st.dropped} {st.pubs.length} {showNats g}" })
       | none => (st, { model := "no-such-subscription" })
     | some _, none => (st, { model := "-", oracle := if impl == "-" then [] else ["subsequence"] })
     | _, _ => (st, { model := "bad-op" })
